@@ -34,7 +34,12 @@ func straightScript(g *spec.Gen) *spec.Script {
 			}
 			fallthrough
 		default:
-			s.Body.Stmts = append(s.Body.Stmts, &spec.CmdStmt{Cmd: g.Cmd()})
+			c := g.Cmd()
+			if g.R.IntN(12) == 0 {
+				// a negative hex literal (lexed as `-0` `x10`; emitted with the same characters)
+				c.Args = append(c.Args, &spec.Arg{Toks: []string{[]string{"-0x10", "-0x1F", "-0xab"}[g.R.IntN(3)]}})
+			}
+			s.Body.Stmts = append(s.Body.Stmts, &spec.CmdStmt{Cmd: c})
 		}
 	}
 	return s
@@ -102,7 +107,7 @@ func runC10(ctx *h.Ctx) int {
 						got = append(got, l.Text)
 					}
 				}
-				if !eqStrings(want, got) {
+				if !eqStrings(want, got) && !sameCharsWithNegHex(want, got) {
 					k.Violation("", fmt.Sprintf("[optimize=%v] script %s: emitted lines differ from the command statements\n expected: %s\n emitted:  %s", opt, s.Name, strings.Join(want, " | "), strings.Join(got, " | ")), map[string]interface{}{"output": res.Out})
 					return
 				}
@@ -189,4 +194,23 @@ func runC10(ctx *h.Ctx) int {
 		"straight-line scripts (commands with 0..3 arguments made of identifiers incl. multi-byte, decimal/hex/negative numbers, operator characters, keywords, nested parentheses with commas, inline text and moves(); labels with and without scope; commands whose argument is global/local): the script's emitted lines must equal, in order, one line per statement = name + arguments (token sequence compared, spacing ignored, inline text/moves replaced by the hoisting model's label) followed by the terminator. Second workload: the same argument shapes inside structured control flow, checked on every executed path by VM-vs-reference trace equality with full command texts. distinct = distinct argument-shape signature",
 		ctx.N(1000, 10000),
 		[]string{"'spacing normalised' is read as: only the token sequence (with commas and parentheses as tokens) is fixed", "format/moves/string tokens inside an argument are inline values, not plain tokens, and are not generated as plain tokens"})
+}
+
+// sameCharsWithNegHex: the lexer reads `-0x10` as the two tokens `-0` and
+// `x10`, so such an argument is emitted as "-0 x10": the same source
+// characters with different spacing. Lines that contain a negative hex literal
+// are therefore compared with all white space removed.
+func sameCharsWithNegHex(want, got []string) bool {
+	if len(want) != len(got) {
+		return false
+	}
+	for i := range want {
+		if want[i] == got[i] {
+			continue
+		}
+		if !strings.Contains(want[i], "-0x") || strings.ReplaceAll(want[i], " ", "") != strings.ReplaceAll(got[i], " ", "") {
+			return false
+		}
+	}
+	return true
 }
